@@ -468,6 +468,9 @@ func uniq(xs []string) []string {
 }
 
 func writeEvidence(cfg *Config, ev *evidence) {
+	if os.Getenv("GOSMT_NO_EVIDENCE") != "" {
+		return // runs against scratch trees (seeded changes) must not overwrite the evidence of /repo
+	}
 	dir := filepath.Join(cfg.Verif, "evidence")
 	os.MkdirAll(dir, 0o755)
 	b, _ := json.MarshalIndent(ev, "", " ")
